@@ -18,10 +18,14 @@ NoDoc == [fmt |-> "docx", body |-> <<>>, hdr |-> 0, ftr |-> 0, sheet |-> <<>>]
 
 TraceInit == l = 1 /\ doc = NoDoc /\ pos = 0 /\ out = <<>>
 
+\* the next block that presents something (wrappers and markers are passed over silently)
+NextShown(p) == LET c == {q \in (p + 1)..Len(doc.body) : doc.body[q].k \notin Brackets} IN
+                IF c = {} THEN 0 ELSE CHOOSE q \in c : \A x \in c : q <= x
+
 \* a new segment: the previous document must have been read to its end
 TraceDoc ==
     /\ l <= Len(Trace) /\ Ev.event = "Doc" /\ l' = l + 1
-    /\ Done
+    /\ doc.body = <<>> \/ NextShown(pos) = 0
     /\ doc' = [fmt |-> Ev.fmt, body |-> Ev.body, hdr |-> Ev.hdr, ftr |-> Ev.ftr, sheet |-> Ev.sheet]
     /\ IsDoc(doc')
     /\ pos' = 0 /\ out' = <<>>
@@ -44,12 +48,15 @@ Matches(it, e) ==
 
 TraceBlock ==
     /\ l <= Len(Trace) /\ Ev.event = "Block" /\ l' = l + 1
-    /\ Next
+    /\ NextShown(pos) > 0
+    /\ pos' = NextShown(pos)
+    /\ out' = out \o [q \in 1..(NextShown(pos) - pos) |-> Item(doc, pos + q)]
+    /\ UNCHANGED doc
     /\ Matches(out'[Len(out')], Ev)
 
 TraceEnd ==
     /\ l <= Len(Trace) /\ Ev.event = "End" /\ l' = l + 1
-    /\ Done
+    /\ NextShown(pos) = 0
     /\ UNCHANGED vars
 
 TraceNext == TraceDoc \/ TraceBlock \/ TraceEnd
